@@ -191,13 +191,40 @@ class IntervalEval:
         if isinstance(e, ast.Call) and isinstance(e.func, ast.Name) and e.func.id == "float" and len(e.args) == 1:
             return self.expr(e.args[0])
         if isinstance(e, ast.IfExp):
-            d = self.decide(e.test, self.env) if self.decide else None
+            d = self._ask(e.test)
             if d is True:
                 return self.expr(e.body)
             if d is False:
                 return self.expr(e.orelse)
             return self.expr(e.body).hull(self.expr(e.orelse))
         raise AnalysisError(f"interval analysis: unsupported expression `{ast.unparse(e)}`", where=self.where(e))
+
+    _MIRROR = {ast.Lt: ast.Gt, ast.Gt: ast.Lt, ast.LtE: ast.GtE, ast.GtE: ast.LtE, ast.Eq: ast.Eq, ast.NotEq: ast.NotEq}
+
+    def _ask(self, test):
+        """The rule's decision for a test, whichever way it is written: `not X` negates the answer for X, and a single
+        comparison is also offered to the callback mirrored (a < b as b > a)."""
+        if not self.decide:
+            return None
+        if isinstance(test, ast.UnaryOp) and isinstance(test.op, ast.Not):
+            d = self._ask(test.operand)
+            return None if d is None else (not d)
+        first_error = None
+        try:
+            d = self.decide(test, self.env)
+            if d is not None:
+                return d
+        except AnalysisError as e:             # a callback that refuses tests it does not know: try the mirrored form
+            first_error = e
+        if isinstance(test, ast.Compare) and len(test.ops) == 1 and type(test.ops[0]) in self._MIRROR:
+            m = ast.Compare(left=test.comparators[0], ops=[self._MIRROR[type(test.ops[0])]()], comparators=[test.left])
+            try:
+                return self.decide(m, self.env)
+            except AnalysisError:
+                pass
+        if first_error is not None:
+            raise first_error
+        return None
 
     def block(self, stmts):
         """Returns ('fall', env) or ('return', Iv-or-tuple)."""
@@ -218,7 +245,7 @@ class IntervalEval:
                             self.env.pop(dd, None)
                     continue
             if isinstance(s, ast.If):
-                d = self.decide(s.test, self.env) if self.decide else None
+                d = self._ask(s.test)
                 if d is True:
                     r = self.block(s.body)
                     if r is not None:
